@@ -1758,6 +1758,18 @@ class Engine:
             if not (isinstance(a.ty, TConst) and a.z == ("bytes", rb"[ACGTacgt]+")):
                 raise OutOfSubset(f"re.finditer with another pattern at L{line}")
             return [(s, self.acgt_runs(s, pos[1]))]
+        if mod == "click" and name == "echo" and len(pos) == 1 and pos[0].ty == STR and set(kw) <= {"err"}:
+            # click.echo(text[, err=True]): one more chunk on the console stream (ghost objects `stdout!console` /
+            # `stderr!console` of class TextOut, which exist on entry; the trailing newline echo adds is not modelled)
+            err = kw.get("err")
+            if err is not None and not (err.ty == BOOL and (z3.is_true(z3.simplify(err.z)) or z3.is_false(z3.simplify(err.z)))):
+                raise OutOfSubset(f"click.echo with a computed err= at L{line}")
+            which = "stderr" if err is not None and z3.is_true(z3.simplify(err.z)) else "stdout"
+            recv = Val(TRef("TextOut"), console_ref(which))
+            _, m, fty = field_map(s, "TextOut", "g_out")
+            lst = Val(fty, m[recv.z])
+            self.note_list(s, lst)
+            return self.builtin_method(s, lst, "append", [pos[0]], {}, exc, node)
         if mod == "math" and name == "floor":
             (x,) = pos
             if x.ty == REAL:
@@ -2921,6 +2933,11 @@ class Engine:
         return outs + exc
 
     gen_stack = []
+
+
+def console_ref(which):
+    """reference of the ghost TextOut object behind click.echo (an object that exists on entry, see verify.initial_state)"""
+    return z3.Int(f"{which}!console")
 
 
 def bytes_val(kind, first, n):
